@@ -4596,3 +4596,194 @@ let rec log_aec x ops k =
     N.add (match o with
            | XAec (ga, _) -> new_aec x.x_blk.b_bp ga k
            | _ -> N0) (log_aec (fst (xstep x o)) r k)
+
+(** val log_aec_keys : exporter -> xop list -> val0 option list list **)
+
+let rec log_aec_keys x = function
+| [] -> []
+| o :: r ->
+  app
+    (match o with
+     | XAec (ga, _) ->
+       if N.testbit x.x_blk.b_bp.h_other (Npos XH)
+       then (dkey ga) :: []
+       else []
+     | _ -> []) (log_aec_keys (fst (xstep x o)) r)
+
+(** val count_key : val0 option list -> val0 option list list -> n **)
+
+let count_key k l =
+  fold_right (fun k' a -> N.add (if okey_eqb k' k then Npos XH else N0) a) N0
+    l
+
+(** val qr_guard : bparams -> nat -> bool **)
+
+let qr_guard bp i =
+  let q = N.testbit bp.h_qr in
+  let s = fun k ->
+    (&&) (N.testbit bp.h_qr (Npos (XO (XO XH)))) (N.testbit bp.h_sig k)
+  in
+  nth i
+    ((q N0) :: ((q (Npos XH)) :: ((q (Npos (XO XH))) :: ((q (Npos (XI XH))) :: (
+    (s N0) :: ((s (Npos XH)) :: ((s (Npos (XO XH))) :: ((s (Npos (XI XH))) :: (
+    (s (Npos (XO (XO XH)))) :: ((s (Npos (XI (XO XH)))) :: ((s (Npos (XO (XI
+                                                              XH)))) :: (
+    (s (Npos (XI (XI XH)))) :: ((s (Npos (XO (XO (XO XH))))) :: ((s (Npos (XI
+                                                                   (XO (XO
+                                                                   XH))))) :: (
+    (s (Npos (XO (XI (XO XH))))) :: ((s (Npos (XI (XI (XO XH))))) :: (
+    (s (Npos (XO (XO (XI XH))))) :: ((s (Npos (XI (XO (XI XH))))) :: (
+    (s (Npos (XO (XI (XI XH))))) :: ((s (Npos (XI (XI (XI XH))))) :: (
+    (s (Npos (XO (XO (XO (XO XH)))))) :: ((q (Npos (XI (XO XH)))) :: (
+    (q (Npos (XO (XI XH)))) :: ((q (Npos (XI (XI XH)))) :: ((q (Npos (XO (XO
+                                                              (XO XH))))) :: (
+    (q (Npos (XI (XO (XO XH))))) :: ((q (Npos (XO (XI (XO XH))))) :: (
+    (q (Npos (XO (XI (XO XH))))) :: ((q (Npos (XI (XI (XO XH))))) :: (
+    (q (Npos (XO (XO (XI XH))))) :: ((q (Npos (XI (XO (XI XH))))) :: (
+    (q (Npos (XO (XI (XI XH))))) :: ((q (Npos (XI (XI (XO XH))))) :: (
+    (q (Npos (XI (XI (XI XH))))) :: ((q (Npos (XO (XO (XO (XO XH)))))) :: (
+    (q (Npos (XI (XO (XO (XO XH)))))) :: []))))))))))))))))))))))))))))))))))))
+    true
+
+(** val nonempty : blk -> bool **)
+
+let nonempty b =
+  negb (N.eqb (item_count b) N0)
+
+(** val pass2_blocks : (n * n) list -> minput list -> blk list **)
+
+let pass2_blocks offs ins =
+  flat_map (fun i ->
+    match i with
+    | MBad _ -> []
+    | MFile (name, _, blocks) ->
+      (match lookup_off offs name with
+       | Some off -> map (remap off) blocks
+       | None -> [])) ins
+
+(** val rate_okb : z -> bool **)
+
+let rate_okb tps =
+  (&&) (Z.leb (Zpos XH) tps) (Z.ltb tps m64)
+
+(** val instantz : ts -> z -> z **)
+
+let instantz t tps =
+  Z.add (Z.mul t.secs tps) t.ticks
+
+(** val normalisedb : ts -> z -> bool **)
+
+let normalisedb t tps =
+  (&&) ((&&) (Z.leb Z0 t.secs) (Z.leb Z0 t.ticks)) (Z.ltb t.ticks tps)
+
+(** val ts_okb : ts -> z -> bool **)
+
+let ts_okb t tps =
+  (&&) ((&&) (Z.leb Z0 t.secs) (Z.leb Z0 t.ticks))
+    (Z.ltb (instantz t tps) m63)
+
+(** val item_time_okb : ts -> z -> val0 -> bool **)
+
+let item_time_okb e tps = function
+| VR fs ->
+  (match fs with
+   | [] -> true
+   | o :: _ ->
+     (match o with
+      | Some tv ->
+        (&&) (rate_okb tps)
+          (match ts_of_val tv with
+           | Some t ->
+             (&&) ((&&) (normalisedb t tps) (ts_okb t tps))
+               (Z.leb (instantz e tps) (instantz t tps))
+           | None -> false)
+      | None -> true))
+| _ -> true
+
+(** val time_invb : blk -> bool **)
+
+let time_invb b =
+  let e = b.b_earliest in
+  let tps = tps_of b in
+  (&&)
+    ((&&)
+      ((&&) ((&&) (Z.leb Z0 e.secs) (Z.leb Z0 e.ticks))
+        (if rate_okb tps
+         then (&&) (normalisedb e tps) (ts_okb e tps)
+         else true)) (forallb (item_time_okb e tps) b.b_qrs))
+    (forallb (item_time_okb e tps) b.b_mms)
+
+(** val aec_shapeb : val0 -> bool **)
+
+let aec_shapeb = function
+| VR fs ->
+  (match fs with
+   | [] -> false
+   | _ :: l ->
+     (match l with
+      | [] -> false
+      | _ :: l0 ->
+        (match l0 with
+         | [] -> false
+         | _ :: l1 ->
+           (match l1 with
+            | [] -> false
+            | _ :: l2 ->
+              (match l2 with
+               | [] -> false
+               | o3 :: l3 ->
+                 (match o3 with
+                  | Some v ->
+                    (match v with
+                     | VN n0 ->
+                       (match n0 with
+                        | N0 -> (match l3 with
+                                 | [] -> true
+                                 | _ :: _ -> false)
+                        | Npos _ -> false)
+                     | _ -> false)
+                  | None -> false))))))
+| _ -> false
+
+(** val nodup_valb : val0 list -> bool **)
+
+let rec nodup_valb = function
+| [] -> true
+| k :: r -> (&&) (negb (existsb (val_eqb k) r)) (nodup_valb r)
+
+(** val aec_invb : (val0 * n) list -> bool **)
+
+let aec_invb l =
+  (&&) (forallb (fun kc -> aec_shapeb (fst kc)) l) (nodup_valb (map fst l))
+
+(** val good_blkb : blk -> bool **)
+
+let good_blkb b =
+  (&&) (time_invb b) (aec_invb b.b_aecs)
+
+(** val bparams_eqb : bparams -> bparams -> bool **)
+
+let bparams_eqb a b =
+  (&&)
+    ((&&)
+      ((&&)
+        ((&&) ((&&) (N.eqb a.bp_tps b.bp_tps) (N.eqb a.bp_max b.bp_max))
+          (N.eqb a.h_qr b.h_qr)) (N.eqb a.h_sig b.h_sig))
+      (N.eqb a.h_rr b.h_rr)) (N.eqb a.h_other b.h_other)
+
+(** val blk_params_okb : val0 list -> blk -> bool **)
+
+let blk_params_okb ps b =
+  (&&) (N.ltb b.b_bpi (N.of_nat (length ps)))
+    (bparams_eqb b.b_bp (nth_bp ps b.b_bpi))
+
+(** val merge_okb : minput list -> bool **)
+
+let merge_okb ins =
+  let pre = merged_preamble (run_pass1 ins) in
+  (&&) (has_tyb filePreamble pre)
+    (forallb (fun b ->
+      if nonempty b
+      then (&&) ((&&) (typed_blkb b) (blk_params_okb (params_of pre) b))
+             (good_blkb b)
+      else true) (pass2_blocks (run_pass1 ins).p_off ins))
